@@ -1050,6 +1050,13 @@ def last_block_header_child(ast: AST) -> AST | None:
 
         elif isinstance(child, list):
             if any(ret := a for a in reversed(child) if isinstance(a, AST)):
+                if (field == 'keywords'
+                    and ast_cls is ClassDef
+                    and (bases := ast.bases)
+                    and ((base := bases[-1]).lineno, base.col_offset) > (ret.lineno, ret.col_offset)
+                ):  # a `*base` can follow keywords
+                    return base
+
                 return ret
 
     return None
